@@ -442,7 +442,7 @@ impl Player {
 
     fn collect_slots(ops: &[Value], out: &mut BTreeSet<u64>) {
         for o in ops {
-            if o["op"] == "sstore" || o["op"] == "ret" || o["op"] == "number" {
+            if o["op"] == "sstore" || o["op"] == "ret" || o["op"] == "number" || o["op"] == "env" {
                 out.insert(o["s"].as_u64().unwrap_or(0));
             }
             if let Some(inner) = o["ops"].as_array() {
@@ -934,7 +934,7 @@ impl Player {
             let by_n = self.get("eth_getTransactionByBlockNumberAndIndex", json!([b, i])).ok().cloned().unwrap_or(Value::Null);
             let by_h = self.get("eth_getTransactionByBlockHashAndIndex", json!([t["blockHash"], i])).ok().cloned().unwrap_or(Value::Null);
             flag!("tx_by_idx", by_n == t, "tx {} is not the one served at ({}, {})", id, b, i);
-            flag!("tx_by_hash_idx", by_h == t || b > height, "tx {} is not the one served at (hash of block {}, {})", id, b, i);
+            flag!("tx_by_hash_idx", by_h == t || !block_txs.contains_key(&b), "tx {} is not the one served at (hash of block {}, {})", id, b, i);
             // the call trace, when there is one, is the trace of THIS transaction
             // (a transaction that failed revm's validation never ran: its recorded trace is the empty default frame)
             if !tr.is_null() && u64_of(&rc["gasUsed"]) != Some(0) {
